@@ -82,7 +82,7 @@ static polyseed_data* obtain(pv_rng* rng, const pv_mseed* m, int how, unsigned c
         /* encrypted and decrypted while a different set of user features is enabled: the seed must keep its own bits */
         if (s) { bool other = pv_randn(rng, 2); if (other) { polyseed_enable_features(pv_randn(rng, 7)); PV_COUNT("paths.crypt_under_a_different_feature_mask", 1); }
                  /* the password operation cannot report failure: a refused allocation (should it make any) must not change what it does */
-                 bool refuse = pv_randn(rng, 3) == 0; if (refuse) { pv_w->fail_countdown = 1; PV_COUNT("paths.crypt_with_failing_allocator", 1); }
+                 bool refuse = pv_randn(rng, 3) == 0; if (refuse) { pv_arm_some_request(); PV_COUNT("paths.crypt_with_failing_allocator", 1); }
                  pv_api_crypt(s, "p\xc3\xa4ss"); pv_w->fail_countdown = 0; if (other) polyseed_enable_features(pv_randn(rng, 7)); pv_api_crypt(s, "p\xc3\xa4ss"); if (other) polyseed_enable_features(7); }
         return s; }
     default: {       /* an encrypted copy is stored, loaded and decrypted */
@@ -93,7 +93,7 @@ static polyseed_data* obtain(pv_rng* rng, const pv_mseed* m, int how, unsigned c
         uint8_t* img = malloc(32); pv_api_store(s, img); pv_api_free(s); s = NULL;
         int st = pv_api_load(img, &s); free(img);
         if (st != POLYSEED_OK) return NULL;
-        if (pv_randn(rng, 3) == 0) { pv_w->fail_countdown = 1; PV_COUNT("paths.crypt_with_failing_allocator", 1); }
+        if (pv_randn(rng, 3) == 0) { pv_arm_some_request(); PV_COUNT("paths.crypt_with_failing_allocator", 1); }
         pv_api_crypt(s, pw2); pv_w->fail_countdown = 0;
         return s; }
     }
